@@ -17,9 +17,9 @@ def _c17_ints(s):
 
 def _c17_case(c):
     p = c.split(" ")
-    if p[0] in ("T", "A", "W", "V", "U", "u", "X", "Q", "Y", "y"):
+    if p[0] in ("T", "A", "W", "V", "U", "u", "X", "Q", "Y", "y", "Z"):
         tok = None
-        if p[0] == "Q":
+        if p[0] in ("Q", "Z"):
             tok, p = p[-2:], p[:-2]
         _, pred, mr, mn, mx, tbl, dflt, cn, kind, data, script, opts = p
         man = ""
